@@ -54,6 +54,7 @@ func ruleC01(w *World, r *Report) {
 		"R01.2 no blocking channel operation in the synchronous call tree of the receive loop other than selects with default/timeout and the table's named sends; R01.3 an undecodable datagram returns before any state access and unsupported types send nothing (shared with C02's dispatch enumeration)."
 	r.Explanation += " R01.1.WRAP a loop counter of a type narrower than 64 bits that is compared with <= (>=) against a bound that can be the type's largest (smallest) value never terminates; R01.2.RELOCK no mutex is acquired again while the same goroutine holds it — directly, through a callee, or through the String()/Error() method of a value that is printed under the lock."
 	r.Explanation += " R01.2.RWLOCK a field guarded by an RWMutex is written only with the write lock held (a map written under RLock ends the process)."
+	r.Explanation += " R01.2.DUR no time.Duration is multiplied by a time unit (a wait scaled twice never ends); the slicing in MarkSessionQer is proved by the engine: idx = findItemIndex(x) ∈ [0,len(x)] used on the same x under idx != len(x)."
 	r.NotDecided = "that a later valid request is processed normally (state semantics); panics inside third-party libraries on inputs that satisfy their documented preconditions; memory exhaustion"
 	r.Assumptions = append(r.Assumptions,
 		"go-pfcp "+pinnedGoPfcp+": message.Parse leaves absent IE fields nil and IE lists free of nil elements; IE accessors return an error (never panic) on a non-nil receiver; constructors skip nil IEs",
